@@ -53,6 +53,15 @@ pub open spec fn n_given(start: Option<R32>, end: Option<R32>, middle: Option<R3
     given(start) + given(end) + given(middle) + given(length)
 }
 pub open spec fn is_line(s: String) -> bool { s@ == "line"@ }
+/// an axis that carries only a length: the position is absent, which SVG reads as zero - the start of a
+/// rect / line / image .., the CENTRE of an ellipse (cx / cy default to 0)
+pub open spec fn only_length(start: Option<R32>, end: Option<R32>, middle: Option<R32>, length: Option<R32>) -> bool {
+    start is None && end is None && middle is None && length is Some
+}
+pub open spec fn origin_extent(shape: String, len: real) -> (real, real) {
+    if shape@ == "ellipse"@ { (0real - len / 2real, len / 2real) } else { (0real, len) }
+}
+pub open spec fn plain_shape(shape: String) -> bool { shape@ != "circle"@ && shape@ != "point"@ }
 
 pub open spec fn bx(b: BoundingBox) -> (real, real, real, real) { (val(b.x1), val(b.y1), val(b.x2), val(b.y2)) }
 pub open spec fn len_offset(l: Length, start: real, end: real) -> real {
@@ -141,6 +150,7 @@ impl Position {
 //@ - forall|a: real, b: real| n_given(self.xmin, self.xmax, self.cx, self.width) >= 2 && #[trigger] axis_consistent(self.xmin, self.xmax, self.cx, self.width, a, b)
 //@     ==> r is Some && val(r->Some_0.0) == a && val(r->Some_0.1) == b     @@C11.xdef.consistent
 //@ - n_given(self.xmin, self.xmax, self.cx, self.width) < 2 && !is_line(self.shape) ==> r is None     @@C11.xdef.insufficient
+//@ - only_length(self.xmin, self.xmax, self.cx, self.width) ==> r is None     @@C11.xdef.length_only
 //@end
 //@item src/position.rs :: impl Position :: fn y_def
 //@ ensures
@@ -148,16 +158,32 @@ impl Position {
 //@ - forall|a: real, b: real| n_given(self.ymin, self.ymax, self.cy, self.height) >= 2 && #[trigger] axis_consistent(self.ymin, self.ymax, self.cy, self.height, a, b)
 //@     ==> r is Some && val(r->Some_0.0) == a && val(r->Some_0.1) == b     @@C11.ydef.consistent
 //@ - n_given(self.ymin, self.ymax, self.cy, self.height) < 2 && !is_line(self.shape) ==> r is None     @@C11.ydef.insufficient
+//@ - only_length(self.ymin, self.ymax, self.cy, self.height) ==> r is None     @@C11.ydef.length_only
 //@end
 
+//@item src/position.rs :: impl Position :: fn origin_extent
+//@ strlit "ellipse"
+//@ ensures
+//@ - length is Some ==> r is Some && (val(r->Some_0.0), val(r->Some_0.1)) == origin_extent(self.shape, val(length->Some_0))     @@C11.to_bbox.absent_position_is_zero
+//@ - length is None ==> r is None
+//@end
 //@item src/position.rs :: impl Position :: fn to_bbox
-//@ strlit "line"
+//@ strlit "line" "ellipse" "circle" "point"
 //@ ensures
 //@ - n_given(self.xmin, self.xmax, self.cx, self.width) >= 2 && n_given(self.ymin, self.ymax, self.cy, self.height) >= 2 ==> r is Some     @@C11.to_bbox.sufficient
 //@ - forall|x1: real, y1: real, x2: real, y2: real|
 //@     n_given(self.xmin, self.xmax, self.cx, self.width) >= 2 && n_given(self.ymin, self.ymax, self.cy, self.height) >= 2
 //@     && #[trigger] axis_consistent(self.xmin, self.xmax, self.cx, self.width, x1, x2) && #[trigger] axis_consistent(self.ymin, self.ymax, self.cy, self.height, y1, y2)
 //@     ==> r is Some && bx(r->Some_0) == (x1, y1, x2, y2)     @@C11.to_bbox.consistent
+//@ - plain_shape(self.shape) && n_given(self.xmin, self.xmax, self.cx, self.width) >= 2 && only_length(self.ymin, self.ymax, self.cy, self.height) ==> r is Some
+//@     && (val(r->Some_0.y1), val(r->Some_0.y2)) == origin_extent(self.shape, val(self.height->Some_0))
+//@     && (forall|a: real, b: real| #[trigger] axis_consistent(self.xmin, self.xmax, self.cx, self.width, a, b) ==> val(r->Some_0.x1) == a && val(r->Some_0.x2) == b)     @@C11.to_bbox.y_at_origin
+//@ - plain_shape(self.shape) && n_given(self.ymin, self.ymax, self.cy, self.height) >= 2 && only_length(self.xmin, self.xmax, self.cx, self.width) ==> r is Some
+//@     && (val(r->Some_0.x1), val(r->Some_0.x2)) == origin_extent(self.shape, val(self.width->Some_0))
+//@     && (forall|a: real, b: real| #[trigger] axis_consistent(self.ymin, self.ymax, self.cy, self.height, a, b) ==> val(r->Some_0.y1) == a && val(r->Some_0.y2) == b)     @@C11.to_bbox.x_at_origin
+//@ - plain_shape(self.shape) && only_length(self.xmin, self.xmax, self.cx, self.width) && only_length(self.ymin, self.ymax, self.cy, self.height) ==> r is Some
+//@     && (val(r->Some_0.x1), val(r->Some_0.x2)) == origin_extent(self.shape, val(self.width->Some_0))
+//@     && (val(r->Some_0.y1), val(r->Some_0.y2)) == origin_extent(self.shape, val(self.height->Some_0))     @@C11.to_bbox.both_at_origin
 //@ - self.shape@ == "circle"@ && n_given(self.xmin, self.xmax, self.cx, self.width) >= 2 && n_given(self.ymin, self.ymax, self.cy, self.height) < 2
 //@     && (self.ymin is Some || self.cy is Some || self.ymax is Some) ==> r is Some
 //@       && val(r->Some_0.y2) - val(r->Some_0.y1) == val(r->Some_0.x2) - val(r->Some_0.x1)     @@C11.to_bbox.circle_x.square
